@@ -30,12 +30,46 @@ def writers(prog, adt, field):
     return sorted({a[0].npath for a in prog.field_accesses(adt, field) if a[3].startswith("write") or a[3] == "refmut"})
 
 
-def inventory(rep, R, what, found, reviewed, why):
+def _root(x):
+    return x.split("::{closure")[0]
+
+
+def helper_closure(prog, found, reviewed):
+    """Members of `found` that are not reviewed themselves but are *part of* reviewed code: closures / nested fns of a reviewed function, or
+    private helpers whose every call site (in the workspace) lies in reviewed or already accepted code.  Extracting such a helper moves
+    code, it does not add a new party — the semantic rules about what that code does still apply to it."""
+    accepted = {}
+    if prog is None:
+        return accepted
+    rev_roots = {_root(r) for r in reviewed}
+    changed = True
+    while changed:
+        changed = False
+        for x in found:
+            if x in reviewed or x in accepted:
+                continue
+            rx = _root(x)
+            okroots = rev_roots | {_root(a) for a in accepted}
+            if rx in okroots or any(rx.startswith(r + "::") for r in okroots if not r.startswith("<")):
+                accepted[x] = "closure / nested fn of reviewed " + short(rx)
+                changed = True
+                continue
+            callers = {_root(c.body.npath) for c in prog.who_calls(rx) if c.body.crate.startswith("pasfmt")}
+            if callers and all(c in okroots or any(c.startswith(r + "::") for r in okroots if not r.startswith("<")) for c in callers):
+                accepted[x] = "helper called only from reviewed code: " + ", ".join(sorted(short(c) for c in callers))
+                changed = True
+    return accepted
+
+
+def inventory(rep, R, what, found, reviewed, why, helpers=True):
     found = sorted(found)
-    extra = [x for x in found if x not in reviewed]
+    acc = helper_closure(getattr(rep, "prog", None), found, list(reviewed)) if helpers else {}
+    extra = [x for x in found if x not in reviewed and x not in acc]
     missing = [x for x in reviewed if x not in found]
     rep.check(not extra, R, "inventory:" + what, "new %s: %s (reviewed set: %s) — %s" % (what, [short(x) for x in extra], [short(x) for x in reviewed], why),
-              instance={"what": what, "found": [short(x) for x in found]})
+              instance={"what": what, "found": [short(x) for x in found], "accepted_as_part_of_reviewed_code": {short(k): v for k, v in acc.items()}})
+    for k, v in acc.items():
+        rep.note("%s: %s accepted (%s)" % (what, short(k), v))
     if missing:
         rep.note("%s: reviewed entries no longer present: %s" % (what, [short(x) for x in missing]))
 
@@ -49,6 +83,8 @@ CURSOR_BODIES = [
     "pasfmt_core::defaults::reconstructor::DelphiLogicalLinesReconstructor::nonbreaking_ws_len",
     "pasfmt_core::defaults::reconstructor::DelphiLogicalLinesReconstructor::col_for_token_end_pre_fmt",
     "<pasfmt_core::defaults::reconstructor::CursorTrackerImpl as pasfmt_core::traits::CursorTracker>::relocate_cursors",
+    "pasfmt_core::defaults::reconstructor::DelphiLogicalLinesReconstructor::leading_newlines_len",
+    "pasfmt_core::defaults::reconstructor::DelphiLogicalLinesReconstructor::leading_newlines_len::{closure#0}",
 ]
 TOKEN_IMPLS = ["<pasfmt_core::lang::Token as pasfmt_core::lang::TokenData>::get_content", "<pasfmt_core::lang::Token as pasfmt_core::lang::TokenData>::get_leading_whitespace",
                "<pasfmt_core::lang::RawToken as pasfmt_core::lang::TokenData>::get_content", "<pasfmt_core::lang::RawToken as pasfmt_core::lang::TokenData>::get_leading_whitespace"]
@@ -86,10 +122,17 @@ def check_c06(prog, rep, tier, cfg):
             (bd, bb, i, kind, s) = rd[0]
             val = s["dst"]["l"]
             users = [c for c in rs.calls() if any(a["k"] in ("copy", "move") and a["place"]["l"] == val for a in c.args)]
-            ok = len(users) == 1 and users[0].callee == "core::cmp::Ord::clamp" and [a.get("int") for a in users[0].args[1:]] == [1, 2]
             from panic import dominating_conditions
+            from util import small_value_class, within
             conds = dominating_conditions(rs, bb)
-            ok &= any(c[0] == "cmp" and c[1] == "Eq" and c[4] is True and "int" in c[3] and c[3]["int"] == 0 for c in conds)
+            if len(users) == 1 and users[0].callee == "core::cmp::Ord::clamp":
+                ok = [a.get("int") for a in users[0].args[1:]] == [1, 2] and any(c[0] == "cmp" and c[1] == "Eq" and c[4] is True and "int" in c[3] and c[3]["int"] == 0 for c in conds)
+            elif len(users) == 1 and prog.body(users[0].target or "") is not None and users[0].t.get("dst") and not users[0].t["dst"]["p"]:
+                # a helper that receives the old count: its results must stay within 1..2 whatever the count is (the count can only choose between 1 and 2)
+                vs = small_value_class(prog, rs, {"k": "use", "op": {"k": "copy", "place": users[0].t["dst"]}})
+                ok = within(vs, 1, 2)
+            else:
+                ok = False
         rep.check(ok, R, "newline-count-read-only-as-clamp(1,2)-on-first-token", "reconstruct_solution uses the input's newline count other than as clamp(_, 1, 2) for the first token of a line",
                   instance={"use": "newlines_before.clamp(1, 2) under decision_index == 0"})
     # FormattingData::from reduces whitespace to (newline count, blanks on the last line)
@@ -100,7 +143,9 @@ def check_c06(prog, rep, tier, cfg):
         if ok:
             f = dict(zip(agg[0]["rv"]["fields"], agg[0]["rv"]["ops"]))
             ok = f["indentations_before"].get("int") == 0 and f["continuations_before"].get("int") == 0 and canon(ff[0], f["ignored"]) == "arg1.1"
-            ok &= "count(filter(chars(arg1.0)" in canon(ff[0], f["newlines_before"])
+            nlc = canon(ff[0], f["newlines_before"])
+            # the line-break count: a filtered count over the characters or bytes of the whitespace (0x0A is never part of a multi-byte sequence)
+            ok &= "count(filter(chars(arg1.0)" in nlc or "count(filter(bytes(arg1.0)" in nlc
         rep.check(ok, R, "whitespace-reduced-to-counts", "FormattingData::from keeps more of the original whitespace than (newline count, trailing blank count), or indentation/continuation do not start at 0")
     # lexer: text before a token is looked at only by the two comment classifiers
     pre = set()
@@ -120,8 +165,11 @@ def check_c06(prog, rep, tier, cfg):
     R = "C06.b"
     if rs is not None:
         loops = rs.loops()
-        if rep.check(len(loops) == 1, R, "one-decision-loop", "reconstruct_solution must have one loop over decisions"):
-            h, L = next(iter(loops.items()))
+        nlw = {a[1] for a in prog.field_accesses(FD, "newlines_before", within={rs.npath}) if a[3].startswith("write")}
+        dl = [(h, L) for h, L in loops.items() if nlw and nlw <= L]
+        dl.sort(key=lambda x: len(x[1]))
+        if rep.check(len(dl) >= 1, R, "one-decision-loop", "reconstruct_solution has no loop over the decisions that contains the counter stores"):
+            h, L = dl[-1]
             for f in ("newlines_before", "indentations_before", "continuations_before"):
                 st = {a[1] for a in prog.field_accesses(FD, f, within={rs.npath}) if a[3].startswith("write")}
                 cyc = bfs_cycle(rs, h, L, st)
@@ -129,6 +177,7 @@ def check_c06(prog, rep, tier, cfg):
                           instance={"field": f, "store_blocks": len(st)})
 
     gap_coverage(prog, rep, "C06.c")
+    original_ws_only_for_ignored(prog, rep, "C06.e")
     # ---------------------------------------------------------------- C06.d the only reader of the input's blank count asks `separated or not`, and a line break counts as separation
     R = "C06.d"
     n = 0
@@ -146,6 +195,47 @@ def check_c06(prog, rep, tier, cfg):
                   "%s derives a space decision from the input's blank count alone (%s): after an input line break that count is the next line's indentation, so `a⏎b` (b at column 0) and `a b` format differently" % (short(b2.npath), ret),
                   where="%s:%d" % (b2.file, b2.line), instance={"body": short(b2.npath), "value": ret})
     rep.floor(R, "readers of the input's blank count in the spacing rule", n, 1)
+
+
+def original_ws_only_for_ignored(prog, rep, R):
+    """C06.e — the emission step looks at a token's original leading whitespace only for ignored tokens: every call of
+    get_leading_whitespace in reconstruct (its per-token body and helpers reached only from there) is dominated by `is_ignored() == true`,
+    directly or at every call site of the helper that contains it."""
+    from panic import dominating_conditions
+    GL = ("pasfmt_core::lang::TokenData::get_leading_whitespace", "<pasfmt_core::lang::Token as pasfmt_core::lang::TokenData>::get_leading_whitespace")
+
+    def guarded(b, bb):
+        return any(c[0] == "call" and c[1].endswith("is_ignored") and c[3] is True for c in dominating_conditions(b, bb))
+
+    def emission_bodies():
+        roots = {RECON}
+        out = {k for k in prog.bodies if _root(k) == RECON}
+        cands = [k for k, b in prog.bodies.items() if b.file.endswith("reconstructor.rs") and k not in CURSOR_BODIES and b.crate.startswith("pasfmt_core")]
+        callers_of = {k: {_root(c.body.npath) for c in prog.who_calls(_root(k))} for k in cands}
+        changed = True
+        while changed:
+            changed = False
+            for k in cands:
+                if k in out:
+                    continue
+                if callers_of[k] and callers_of[k] <= {_root(x) for x in out}:
+                    out.add(k)
+                    changed = True
+        return out
+    n = 0
+    for k in sorted(emission_bodies()):
+        b = prog.bodies[k]
+        for c in b.calls():
+            if c.callee not in GL and c.target not in GL:
+                continue
+            n += 1
+            ok = guarded(b, c.bb)
+            if not ok and _root(k) != RECON:
+                sites = [x for x in prog.who_calls(_root(k))]
+                ok = bool(sites) and all(guarded(x.body, x.bb) for x in sites)
+            rep.check(ok, R, "original-whitespace-only-when-ignored:" + short(k), "%s reads a token's original leading whitespace outside the `is_ignored()` arm of the emission step — for a formatted token the "
+                      "whitespace must come from the decided counters alone" % short(k), where=c.where(), instance={"body": short(k), "guard": "is_ignored() == true"})
+    rep.floor(R, "reads of the original whitespace in the emission step", n, 2)
 
 
 def gap_coverage(prog, rep, R):
@@ -247,6 +337,46 @@ def gap_coverage(prog, rep, R):
                         "exempt": "Comment(InlineLine) leaves `after` open: it is always followed by a line break (C02.a) and the next token's spaces are removed as a line start (C08.c)"})
 
 
+def _zeroing_as_iterator_chain(prog, zf):
+    """`formatted_tokens.tokens_mut()[.map(|(_, d)| d)].filter(|d| d.newlines_before > 0).for_each(|d| d.spaces_before = 0)`"""
+    import re as _re
+    fe = [c for c in zf.calls() if c.callee == "core::iter::traits::iterator::Iterator::for_each"]
+    if len(fe) != 1 or zf.loops():
+        return False
+    chain = canon(zf, fe[0].args[0])
+    if not _re.match(r"^filter\((map\()?tokens_mut\(arg1\)(,closure\{\}\))?,closure\{\}\)$", chain):
+        return False
+    allowed = {"core::iter::traits::iterator::Iterator::for_each", "core::iter::traits::iterator::Iterator::filter", "core::iter::traits::iterator::Iterator::map", "pasfmt_core::lang::FormattedTokens::tokens_mut"}
+    if any(c.callee not in allowed for c in zf.calls()):
+        return False
+    cls = {}
+    for c in zf.calls():
+        nm = c.callee.split("::")[-1]
+        if nm in ("map", "filter", "for_each"):
+            a1 = c.args[1]
+            clos = zf.locals[a1["place"]["l"]].get("closure") if a1["k"] in ("copy", "move") else None
+            cls[nm] = prog.body(norm(clos)) if clos else None
+    if cls.get("filter") is None or cls.get("for_each") is None:
+        return False
+    f, e, m = cls["filter"], cls["for_each"], cls.get("map")
+    # filter: returns exactly `element.newlines_before > 0`
+    ret = canon(f, {"k": "copy", "place": {"l": 0, "p": []}})
+    if not _re.match(r"^Gt\(arg2(\.1)?\.newlines_before,0\)$", ret) or list(f.calls()):
+        return False
+    # for_each: a single unconditional store spaces_before = 0, nothing else
+    st = [(bb, s2) for bb, _, s2 in e.stmts() if s2["k"] == "assign" and s2["dst"]["p"] and any(pe["k"] == "field" for pe in s2["dst"]["p"])]
+    if len(st) != 1 or list(e.calls()) or len(e.reachable()) > 2:
+        return False
+    d = st[0][1]
+    names = [pe.get("name") for pe in d["dst"]["p"] if pe["k"] == "field"]
+    if names[-1:] != ["spaces_before"] or d["rv"]["k"] != "use" or d["rv"]["op"].get("int") != 0:
+        return False
+    # map (if any): a projection of the element, no calls
+    if m is not None and (list(m.calls()) or not canon(m, {"k": "copy", "place": {"l": 0, "p": []}}).startswith("arg2.")):
+        return False
+    return True
+
+
 def zeroing_after_wrapping(prog, rep, R):
     """Spaces before line-starting tokens are removed by one loop over all tokens, after the last wrapping pass."""
     of = prog.body(OLF_FMT)
@@ -268,8 +398,12 @@ def zeroing_after_wrapping(prog, rep, R):
                 ok &= len(nx) == 1 and "Range{0,len(arg1)}" in canon(zf, nx[0].args[0])
                 exits = [(x, s2) for x in L for s2 in zf.succ[x] if s2 not in L and zf.blocks[s2]["term"]["k"] != "unreachable"]
                 ok &= len(exits) == 1
-        rep.check(ok, R, "zeroing-loop", "remove_spaces_at_line_starts is no longer `for i in 0..len { if newlines_before > 0 { spaces_before = 0 } }` over every token",
-                  instance={"loop": "0..formatted_tokens.len()", "guard": "newlines_before > 0", "store": "spaces_before = 0"})
+        form = "index loop"
+        if not ok:
+            ok, form = _zeroing_as_iterator_chain(prog, zf), "iterator chain"
+        rep.check(ok, R, "zeroing-loop", "remove_spaces_at_line_starts no longer sets `spaces_before = 0` for exactly the tokens with `newlines_before > 0`, over every token (accepted shapes: "
+                  "`for i in 0..len { if newlines_before > 0 {..} }` and `tokens_mut()[.map(data)].filter(newlines_before > 0).for_each(spaces_before = 0)`)",
+                  instance={"shape": form, "guard": "newlines_before > 0", "store": "spaces_before = 0"})
         # every return of format() passes the zeroing, and no wrapping happens after it
         zc = of.calls_to(ZERO_FN)
         fls = of.calls_to(OLF + "InternalOptimisingLineFormatter::format_line")
@@ -281,11 +415,52 @@ def zeroing_after_wrapping(prog, rep, R):
 
 # =========================================================================== C08
 
+def is_repeat_push_helper(prog, name):
+    """`fn f(target: &mut String, unit: &str, count: N)` whose whole effect is `for _ in 0..count { target.push_str(unit) }`:
+    one loop, one push_str(arg1, arg2) inside it, the iterated range ends at (a conversion of) arg3, no other effects."""
+    cb = prog.body(name or "")
+    if cb is None or cb.arg_count != 3 or len(cb.loops()) != 1:
+        return False
+    (h, L), = cb.loops().items()
+    allowed = {"alloc::string::String::push_str", "core::iter::traits::iterator::Iterator::next", "core::iter::traits::collect::IntoIterator::into_iter",
+               "core::convert::Into::into", "core::convert::From::from"}
+    pushes = []
+    for c in cb.calls():
+        if c.callee == "alloc::string::String::push_str":
+            pushes.append(c)
+        elif c.callee not in allowed and not (c.callee or "").startswith("core::iter::range::"):
+            return False
+    if len(pushes) != 1 or pushes[0].bb not in L:
+        return False
+    og = Origins(cb)
+    if not all(x[0] == "param" and x[1] == 1 for x in og.of_operand(pushes[0].args[0])) or not all(x[0] == "param" and x[1] == 2 for x in og.of_operand(pushes[0].args[1])):
+        return False
+    rng = [st for _, _, st in cb.stmts() if st["k"] == "assign" and st["rv"]["k"] == "aggregate" and (st["rv"].get("adt") or "").endswith("ops::range::Range")]
+    if len(rng) != 1:
+        return False
+    lo, hi = rng[0]["rv"]["ops"]
+    if not (lo["k"] == "const" and lo.get("int") == 0):
+        return False
+    oh = Origins(cb, extra_identity={"core::convert::Into::into", "core::convert::From::from"}).of_operand(hi)
+    if not oh or not all(x[0] == "param" and x[1] == 3 for x in oh):
+        return False
+    # no stores through references other than what push_str does
+    for bb, i, st in cb.stmts():
+        if st["k"] == "assign" and st["dst"]["p"] and any(pe["k"] == "deref" for pe in st["dst"]["p"]):
+            return False
+    return True
+
+
 def foreach_pairs(prog, body):
     """[(call site, canonical range, sorted origin names of what the closure pushes)] for every `range.for_each(closure)` in body"""
     seq = []
     for c in body.calls():
         if c.callee != "core::iter::traits::iterator::Iterator::for_each":
+            if is_repeat_push_helper(prog, c.target):
+                # `push_repeated(buf, unit, count)`: the same idiom in helper form
+                o = Origins(body).of_operand(c.args[1])
+                src = sorted((x[2].split("::")[-1] if x[0] == "call" else ("' '" if x == ("const", "str", " ") else str(x))) for x in o)
+                seq.append((c, "Range{0,%s}" % canon(body, c.args[2]), src))
             continue
         rng = canon(body, c.args[0])
         clos = None
@@ -374,7 +549,7 @@ def getter_use_discipline(prog, rep, R):
                     for ai, a in enumerate(c2.args):
                         if a["k"] in ("copy", "move") and a["place"]["l"] == l:
                             uses.append((c2.callee or "?", ai))
-            bad = [u for u in uses if not (u[0] in ("alloc::string::String::push_str",) and u[1] == 1)]
+            bad = [u for u in uses if not ((u[0] in ("alloc::string::String::push_str",) or is_repeat_push_helper(prog, u[0])) and u[1] == 1)]
             # measuring is tolerated when the number can only become a capacity hint
             if bad and all(u[0] == "core::str::len" for u in bad):
                 esc = []
@@ -535,16 +710,12 @@ def check_c08(prog, rep, tier, cfg):
             continue
         b, bb, i, kind, s = a
         rv = s["rv"]
-        good = False
-        desc = None
-        if rv["k"] == "use" and rv["op"]["k"] == "const" and rv["op"].get("int") in (0, 1):
-            good, desc = True, rv["op"]["int"]
-        elif rv["k"] == "use" and rv["op"]["k"] in ("copy", "move"):
-            cc = canon(b, rv["op"])
-            good = cc.startswith("clamp(") and cc.endswith(",1,2)")
-            desc = "clamp(old,1,2)" if good else cc
+        from util import small_value_class, within
+        vs = small_value_class(prog, b, rv)
+        good = within(vs, 0, 2)
+        desc = ",".join(sorted(map(str, vs)))
         n += 1
-        rep.check(good, R, "newlines-value:%s:%s" % (short(b.npath).split("::")[-1], desc), "newlines_before is set to %s in %s (allowed: 0, 1, clamp(old,1,2))" % (desc, short(b.npath)),
+        rep.check(good, R, "newlines-value:%s:%s" % (short(b.npath).split("::")[-1], desc), "newlines_before is set to %s in %s (allowed: values within 0..2 — constants, clamp(old,1,2), or a helper whose every result is one of these)" % (desc, short(b.npath)),
                   where="%s:%d" % (b.file, abs(s.get("line", 0))), instance={"body": short(b.npath), "value": desc})
     rep.floor(R, "stores to newlines_before", n, 4)
     # values stored to spaces_before
@@ -988,11 +1159,17 @@ def check_c10(prog, rep, tier, cfg):
     same_settings_rule(prog, rep, R)
     # ---------------------------------------------------------------- C10.c counter<->string pairing in every width computation
     R = "C10.c"
-    def mul_pairs(b):
+    def mul_pairs(b, depth=1):
+        """(factor, factor) of every multiplication in b and — one level deep — in the workspace helpers it calls (an extracted width helper)"""
         out = []
         for bb, i, s in b.stmts():
             if s["k"] == "assign" and s["rv"]["k"] == "binop" and s["rv"]["op"] in ("Mul", "MulWithOverflow"):
                 out.append(tuple(sorted((canon(b, s["rv"]["a"]), canon(b, s["rv"]["b"])))))
+        if depth:
+            for c in b.calls():
+                cb = prog.body(c.target or "")
+                if cb is not None and cb.crate == b.crate and cb.npath != b.npath and cb.npath.rsplit("::", 1)[0] == b.npath.rsplit("::", 1)[0]:
+                    out += mul_pairs(cb, depth - 1)
         return sorted(out)
     nb = prog.body("pasfmt_core::defaults::reconstructor::DelphiLogicalLinesReconstructor::nonbreaking_ws_len")
     if rep.check(nb is not None, R, "anchor:nonbreaking_ws_len", "nonbreaking_ws_len not found"):
@@ -1010,7 +1187,8 @@ def check_c10(prog, rep, tier, cfg):
     for g, okb in (("get_indentation_str", None), ("get_continuation_str", None)):
         cs = sorted({c.body.npath.split("::{closure")[0] for c in prog.who_calls(RS + "::" + g) if c.body.crate.startswith("pasfmt") and nondebug(c.body.npath)})
         inventory(rep, R, "users of " + g, cs, [RECON, "pasfmt_core::rules::optimising_line_formatter::multiline_strings::StringFormatter::try_rewrite_string",
-                                                 "pasfmt_core::defaults::reconstructor::DelphiLogicalLinesReconstructor::nonbreaking_ws_len", OLF + "types::LineWhitespace::len"], "emit / measure / cursor only")
+                                                 "pasfmt_core::defaults::reconstructor::DelphiLogicalLinesReconstructor::nonbreaking_ws_len",
+                                                 "pasfmt_core::defaults::reconstructor::DelphiLogicalLinesReconstructor::ws_len", OLF + "types::LineWhitespace::len"], "emit / measure / cursor only")
     # the strings are reachable only through their getters (whose users are inventoried above)
     for f, g in (("indentation_str", "get_indentation_str"), ("continuation_str", "get_continuation_str")):
         fr = sorted({a[0].npath for a in prog.field_accesses(RS, f) if nondebug(a[0].npath)})
@@ -1082,6 +1260,17 @@ def check_c11(prog, rep, tier, cfg):
         other_uses = [c for c in b.calls() if any(a["k"] in ("copy", "move") and a["place"]["l"] == val for a in c.args)]
         if other_uses and all("fmt::rt::Argument" in (c.callee or "") or "log" in (c.callee or "") for c in other_uses):
             continue  # trace argument
+        for c in other_uses:
+            pos = [i2 for i2, a in enumerate(c.args) if a["k"] in ("copy", "move") and a["place"]["l"] == val]
+            nm = (c.callee or "?").split("::")[-1]
+            if "fmt::rt::Argument" in (c.callee or "") or "log" in (c.callee or ""):
+                continue
+            if nm in ("checked_sub", "saturating_sub") and pos == [1]:
+                n += 1
+                rep.ok(R, {"body": short(b.npath), "use": "%s(length, max_line_length): the excess, or nothing when the line fits" % nm, "line": c.line})
+            else:
+                rep.fail(R, "use:%s:%s" % (short(b.npath), nm), "max_line_length is handed to %s (argument %s) in %s — only `length > max`, the guarded excess `length - max` and checked/saturating `length - max` are reviewed"
+                         % (c.callee, pos, short(b.npath)), where=c.where())
         for (bb2, s2, side) in uses:
             n += 1
             op = s2["rv"]["op"]
